@@ -242,6 +242,43 @@ func (h) Gen(r *hlib.Rand, tier string, scale int, emit func(string)) {
 		emit(fmt.Sprintf("rangeq %s %s %v %v %s", hx(a), hx(b), r.Bool(), r.Bool(), vlist))
 	}
 	emit(fmt.Sprintf("rangeq %s %s true true %s", hx(math.Float64bits(-1e-320)), hx(math.Float64bits(1e-320)), vlist))
+	// end-to-end: date fields (int64 nanoseconds) searched with DateRangeQuery; the end points go through
+	// Int64ToFloat64 / Float64ToInt64, every open/closed/unbounded combination, documents ON the end points
+	dn := []int64{math.MinInt64, math.MinInt64 + 1, -1e18, -86400e9, -2, -1, 0, 1, 2, 1e9, 86400e9, 1600000000e9, 1600000000e9 + 1, 1e18,
+		math.MaxInt64 - 1, math.MaxInt64, 0x7fefffffffffffff, -0x7ff0000000000000, 0x7ff8000000000001, -0x7ff8000000000002}
+	for i := 0; i < 12; i++ {
+		dn = append(dn, int64(r.U64()))
+	}
+	ds := make([]string, len(dn))
+	for i, v := range dn {
+		ds[i] = hx(uint64(v))
+	}
+	dlist := strings.Join(ds, ",")
+	dends := append(append([]int64{}, dn...), 5, -5, 1600000000e9-1, 3e18, -3e18)
+	for i := 0; i < n/2; i++ {
+		a, b := dends[r.Intn(len(dends))], dends[r.Intn(len(dends))]
+		if r.Chance(80) && a > b {
+			a, b = b, a
+		}
+		as, bs := hx(uint64(a)), hx(uint64(b))
+		switch r.Intn(8) {
+		case 0:
+			as = "-"
+		case 1:
+			bs = "-"
+		}
+		emit(fmt.Sprintf("dateq %s %s %v %v %s", as, bs, r.Bool(), r.Bool(), dlist))
+	}
+	// every inclusion combination with documents exactly on both end points, and the default constructor's [start,end)
+	for _, c := range [][2]bool{{true, true}, {true, false}, {false, true}, {false, false}} {
+		emit(fmt.Sprintf("dateq %s %s %v %v %s", hx(uint64(1e9)), hx(uint64(1600000000e9)), c[0], c[1], dlist))
+		emit(fmt.Sprintf("dateq %s %s %v %v %s", hx(^uint64(0)), hx(0), c[0], c[1], dlist))
+		emit(fmt.Sprintf("dateq %s - %v %v %s", hx(uint64(1e9)), c[0], c[1], dlist))
+		emit(fmt.Sprintf("dateq - %s %v %v %s", hx(uint64(1e9)), c[0], c[1], dlist))
+	}
+	// probe: an end point whose float image is an infinity (see known_findings.json)
+	emit(fmt.Sprintf("dateq %s %s false true %s", hx(uint64(0x800fffffffffffff)), hx(0), dlist))
+	emit(fmt.Sprintf("dateq %s %s true false %s", hx(0), hx(uint64(0x7ff0000000000000)), dlist))
 	for i := 0; i < n/4; i++ {
 		a, b := r.U64()&0xffffffff, r.U64()&0xffffffff
 		emit("il " + hx(a) + " " + hx(b))
@@ -349,6 +386,8 @@ func (h) Exec(line string, out func(string, string), st *hlib.Stats, work string
 			return hlib.Hex(searcher.VerifIncrementPrefixCoded(unhex(w[1])))
 		case "rangeq":
 			return rangeq(w)
+		case "dateq":
+			return dateq(w)
 		case "il":
 			return hx(numeric.Interleave(p64(w[1]), p64(w[2])))
 		case "dil":
@@ -424,6 +463,73 @@ func rangeq(w []string) string {
 		return o.s
 	case <-time.After(3 * time.Second):
 		return "diverges" // the goroutine keeps walking; the harness goes on
+	}
+}
+
+// dateq runs a real DateRangeQuery against an in-memory index holding one document per instant (int64 nanoseconds).
+func dateq(w []string) string {
+	key := "d:" + w[5]
+	rd, ok := idxCache[key]
+	vals := strings.Split(w[5], ",")
+	if !ok {
+		wr, err := bluge.OpenWriter(bluge.InMemoryOnlyConfig())
+		if err != nil {
+			return "err"
+		}
+		b := bluge.NewBatch()
+		for i, v := range vals {
+			d := bluge.NewDocument(strconv.Itoa(i)).AddField(bluge.NewDateTimeField("d", time.Unix(0, int64(p64(v)))))
+			b.Update(d.ID(), d)
+		}
+		if err := wr.Batch(b); err != nil {
+			return "err"
+		}
+		rd, err = wr.Reader()
+		if err != nil {
+			return "err"
+		}
+		idxCache[key] = rd
+	}
+	var start, end time.Time
+	if w[1] != "-" {
+		start = time.Unix(0, int64(p64(w[1])))
+	}
+	if w[2] != "-" {
+		end = time.Unix(0, int64(p64(w[2])))
+	}
+	ch := make(chan string, 1)
+	go func() {
+		defer func() {
+			if recover() != nil {
+				ch <- "panic"
+			}
+		}()
+		q := bluge.NewDateRangeInclusiveQuery(start, end, w[3] == "true", w[4] == "true").SetField("d")
+		it, err := rd.Search(context.Background(), bluge.NewAllMatches(q))
+		if err != nil {
+			ch <- "err"
+			return
+		}
+		hit := make([]byte, len(vals))
+		for i := range hit {
+			hit[i] = '0'
+		}
+		for m, err := it.Next(); m != nil && err == nil; m, err = it.Next() {
+			_ = m.VisitStoredFields(func(field string, value []byte) bool {
+				if field == "_id" {
+					i, _ := strconv.Atoi(string(value))
+					hit[i] = '1'
+				}
+				return true
+			})
+		}
+		ch <- string(hit)
+	}()
+	select {
+	case o := <-ch:
+		return o
+	case <-time.After(3 * time.Second):
+		return "diverges"
 	}
 }
 
